@@ -206,7 +206,7 @@ def mon_c13(tr):
         if e[0] == "poll_begin":
             polled_since_probe = True
             kb, SI, piter = e[1]["k"], e[1]["SI"], None
-            imprs, raw_imprs, ncall = [], [], 0
+            imprs, raw_imprs, ncall, call_ids = [], [], 0, []
             j = i + 1
             while ev[j][0] != "poll_end":
                 if ev[j][0] == "impr" and ev[j][1] == "poll":
@@ -214,6 +214,7 @@ def mon_c13(tr):
                     raw_imprs.append(ev[j])
                 if ev[j][0] == "call" and ev[j][1] == "poll":
                     ncall += 1
+                    call_ids.append(ev[j][2])
                 j += 1
                 if j >= len(ev):
                     return None  # the poll died (exception): nothing to check
@@ -221,8 +222,11 @@ def mon_c13(tr):
             if ev[j][1].get("level", 0) > 0:
                 # stochastic target (declared, specified or found by the run-time test): every polled point is judged on a GP estimate,
                 # which carries a positive predictive SD -- never on the raw observation with SD 0
-                for r_ in raw_imprs[:ncall]:
-                    if r_[5] is None or not (r_[5] > 0):
+                # (a GP whose predictive variance underflows to exactly 0 is not this: the clause needs the estimate to BE the observation)
+                for r_, cid in zip(raw_imprs[:ncall], call_ids):
+                    c_ = tr["calls"][cid - 1] if 0 < cid <= len(tr["calls"]) else None
+                    yraw = c_["ret"][0] if c_ and c_.get("ret") else None
+                    if (r_[5] is None or not (r_[5] > 0)) and yraw is not None and r_[3] == yraw:
                         return ("noisy-poll-on-raw-sample", f"stochastic target (level {ev[j][1]['level']}): a polled point was judged with SD {r_[5]} (estimate {r_[3]}), i.e. on the raw observation")
             if len(imprs) > ncall and raw_imprs[ncall][3] != ev[j][1]["fval"] and not (math.isnan(raw_imprs[ncall][3]) and math.isnan(ev[j][1]["fval"])):
                 # the stalling test of a failed poll compares a recorded iterate with the CURRENT incumbent estimate (all noise modes)
